@@ -138,6 +138,7 @@ where
             Fs(Rectangle, C),
             Cl(C),
             So(Orientation),
+            Sow(Vec<i64>),
             Vr(u16, u16),
             Vo(u16),
             Te(i64),
@@ -176,6 +177,11 @@ where
             }
             "cl" => Op::Cl(c(t.n())),
             "so" => Op::So(Orientation { rotation: rot_of(t.n()), mirrored: t.n() != 0 }),
+            // the current orientation extended by a word over {rotate 0/90/180/270, flip_horizontal, flip_vertical}
+            "sow" => {
+                let n = t.n();
+                Op::Sow((0..n).map(|_| t.n()).collect())
+            }
             "vr" => Op::Vr(t.n() as u16, t.n() as u16),
             "vo" => Op::Vo(t.n() as u16),
             "te" => Op::Te(t.n()),
@@ -203,6 +209,17 @@ where
                 Op::Fs(r, col) => d.fill_solid(&r, col),
                 Op::Cl(col) => d.clear(col),
                 Op::So(o) => d.set_orientation(o),
+                Op::Sow(w) => {
+                    let mut o = d.orientation();
+                    for k in w {
+                        o = match k {
+                            0..=3 => o.rotate(rot_of(k)),
+                            4 => o.flip_horizontal(),
+                            _ => o.flip_vertical(),
+                        };
+                    }
+                    d.set_orientation(o)
+                }
                 Op::Vr(a, b) => d.set_vertical_scroll_region(a, b),
                 Op::Vo(a) => d.set_vertical_scroll_offset(a),
                 Op::Te(k) => d.set_tearing_effect(match k {
